@@ -479,7 +479,7 @@ func TestCheck(t *testing.T) {
 				distinct = append(distinct, s)
 			}
 		}
-		r.Explore(mc.Config{Name: "pairs", Bound: -1}, history(r, [][]script{distinct, mc.Pick(r, distinct, ss)}))
+		r.Explore(mc.Config{Name: "pairs", Bound: -1}, history(r, [][]script{distinct, ss}))
 		r.Explore(mc.Config{Name: "triples", Bound: -1}, history(r, [][]script{distinct, distinct, distinct[:mc.Pick(r, 4, len(distinct))]}))
 		// 3. the repository's own handler as peer
 		r.Explore(mc.Config{Name: "real-handler", Bound: -1, ShardN: 1}, realHandler(r))
